@@ -38,6 +38,9 @@ type Case struct {
 	Kind []int   `json:"kind"`
 	Cls  []int   `json:"cls"`
 	S    string  `json:"s"` // stratum of the generator (echoed)
+	// @defer placement (stratum defer): Did[f] = defer group of fetch f (0 = primary), Dpar = parent of group 2
+	Did  []int `json:"did"`
+	Dpar int   `json:"dpar"`
 }
 
 type In struct {
@@ -85,7 +88,7 @@ func buildFetch(c Case, f int) *resolve.FetchItem {
 	}
 	dsID := "ds" + strconv.Itoa(c.DS[f-1])
 	sf := &resolve.SingleFetch{
-		FetchDependencies: resolve.FetchDependencies{FetchID: f - 1, DependsOnFetchIDs: deps},
+		FetchDependencies: resolve.FetchDependencies{FetchID: f - 1, DependsOnFetchIDs: deps, DeferID: deferID(c, f)},
 		Info:              &resolve.FetchInfo{DataSourceID: dsID, DataSourceName: dsID, OperationType: ast.OperationTypeQuery},
 	}
 	sf.PostProcessing = resolve.PostProcessingConfiguration{SelectResponseDataPath: []string{"data"}, MergePath: append([]string(nil), mp...)}
@@ -113,6 +116,43 @@ func buildFetch(c Case, f int) *resolve.FetchItem {
 		path = append(path, resolve.ObjectPath(seg))
 	}
 	return resolve.FetchItemWithPath(sf, strings.Join(rp, "."), path...)
+}
+
+func deferID(c Case, f int) int {
+	if f-1 < len(c.Did) {
+		return c.Did[f-1]
+	}
+	return 0
+}
+
+func deferred(c Case) bool {
+	for _, d := range c.Did {
+		if d != 0 {
+			return true
+		}
+	}
+	return false
+}
+
+// exportDefer turns the DeferTree into the same tree shape: a group stands for its (organized) fetch tree.
+func exportDefer(n *resolve.DeferTreeNode, outdeps map[string][]int) *Node {
+	if n == nil {
+		return &Node{K: "P", M: []int{}, C: []*Node{}}
+	}
+	switch n.Kind {
+	case resolve.DeferTreeNodeKindSingle:
+		return export(n.Item.Fetches, outdeps)
+	case resolve.DeferTreeNodeKindSequence, resolve.DeferTreeNodeKindParallel:
+		out := &Node{K: "S", M: []int{}, C: []*Node{}}
+		if n.Kind == resolve.DeferTreeNodeKindParallel {
+			out.K = "P"
+		}
+		for _, ch := range n.ChildNodes {
+			out.C = append(out.C, exportDefer(ch, outdeps))
+		}
+		return out
+	}
+	return &Node{K: fmt.Sprint(n.Kind), M: []int{}, C: []*Node{}}
 }
 
 func export(n *resolve.FetchTreeNode, outdeps map[string][]int) *Node {
@@ -179,7 +219,6 @@ func runOne(in In, m Mode, seed int64) (out Out) {
 	for _, f := range order(in.C, m.Order, seed, in.ID) {
 		raw = append(raw, buildFetch(in.C, f))
 	}
-	p := &plan.SynchronousResponsePlan{Response: &resolve.GraphQLResponse{RawFetches: raw, Data: &resolve.Object{}}}
 	var opts []postprocess.ProcessorOption
 	if m.Dag {
 		opts = append(opts, postprocess.EnableScheduleFetches())
@@ -190,6 +229,27 @@ func runOne(in In, m Mode, seed int64) (out Out) {
 	if !m.Dedup {
 		opts = append(opts, postprocess.DisableDeduplicateSingleFetches())
 	}
+	if deferred(in.C) {
+		// a DeferResponsePlan as the planner emits it: flat fetches with DeferIDs + one descriptor per @defer.
+		// Execution order (resolve.go): the primary tree, then the defer tree: Sequence(primary, deferTree)
+		desc := map[int]resolve.DeferDescriptor{1: {ID: 1, ParentID: 0, Path: []string{"x"}}}
+		for _, d := range in.C.Did {
+			if d == 2 {
+				desc[2] = resolve.DeferDescriptor{ID: 2, ParentID: in.C.Dpar, Path: []string{"x"}}
+			}
+		}
+		dp := &plan.DeferResponsePlan{Response: &resolve.GraphQLDeferResponse{
+			Response:         &resolve.GraphQLResponse{RawFetches: raw, Data: &resolve.Object{}},
+			DeferDescriptors: desc,
+		}}
+		postprocess.NewProcessor(opts...).Process(dp)
+		out.Tree = &Node{K: "S", M: []int{}, C: []*Node{
+			export(dp.Response.Response.Fetches, out.OutDeps),
+			exportDefer(dp.Response.DeferTree, out.OutDeps),
+		}}
+		return out
+	}
+	p := &plan.SynchronousResponsePlan{Response: &resolve.GraphQLResponse{RawFetches: raw, Data: &resolve.Object{}}}
 	postprocess.NewProcessor(opts...).Process(p)
 	out.Tree = export(p.Response.Fetches, out.OutDeps)
 	return out
